@@ -41,7 +41,7 @@ REACH = {
               "site_field": 100, "site_array": 100, "site_map": 100, "site_union": 100, "missing_file_cases": 2000,
               "ordered_loads": 1500, "bytes_compared": 2000,
               "dotted_name_definitions": 300, "same_type_twice_in_union": 300,
-              "loaded_by_name_through_repo": 1000, "loaded_by_name_namespaced_root": 300, "logical_values_encoded": 300},
+              "same_simple_name_in_two_namespaces": 300, "loaded_by_name_through_repo": 1000, "loaded_by_name_namespaced_root": 300, "logical_values_encoded": 300},
     "thorough": {"repositories": 30000},
 }
 NAMESPACES = ["", "org.a", "org.a.b", "zz"]
@@ -63,6 +63,12 @@ def gen_repo(rng):
     for i in range(n):
         ns = rng.choice(nss)
         short = rng.choice(["T", "Node", "Item", "Kind", "Box", "Leaf"]) + str(i)
+        if names and rng.random() < 0.3:
+            # the simple name of an earlier type, in another namespace (two types that differ only there)
+            other = rng.choice(names)
+            cand = other.rpartition(".")[2]
+            if ((ns + "." + cand) if ns else cand) not in names:
+                short = cand
         names.append((ns + "." + short) if ns else short)
     kinds = {}
     for i, full in enumerate(names):
@@ -218,10 +224,35 @@ def wb(fa, schema, d):
     return out.getvalue()
 
 
-def one_repo(sh, fa, rng, scratch, idx):
+def targeted_repos():
+    """Shapes the random generator reaches rarely."""
+    E = lambda name, ns, syms: {"type": "enum", "name": name, "namespace": ns, "symbols": syms}
+    out = []
+    # the same simple name in the null namespace and in a namespace; the null one is met first, the
+    # namespaced one is only ever referred to by its relative spelling
+    types = {
+        "Top": {"type": "record", "name": "Top", "fields": [{"name": "tag", "type": "Kind"}, {"name": "body", "type": "acme.Body"}]},
+        "Kind": E("Kind", "", ["A", "B"]),
+        "acme.Body": {"type": "record", "name": "Body", "namespace": "acme", "fields": [{"name": "kind", "type": "Kind"}, {"name": "again", "type": {"type": "array", "items": "Kind"}}]},
+        "acme.Kind": E("Kind", "acme", ["X", "Y", "Z"]),
+    }
+    out.append((types, "Top", [("Top", "Kind", "field", "relative"), ("Top", "acme.Body", "field", "qualified"),
+                               ("acme.Body", "acme.Kind", "field", "relative"), ("acme.Body", "acme.Kind", "array", "relative")]))
+    types = {
+        "Top": {"type": "record", "name": "Top", "fields": [{"name": "first", "type": ["null", "Item"]}, {"name": "m", "type": {"type": "map", "values": "x.y.Holder"}}]},
+        "Item": {"type": "fixed", "name": "Item", "size": 2},
+        "x.y.Holder": {"type": "record", "name": "x.y.Holder", "fields": [{"name": "i", "type": ["null", "Item"]}, {"name": "deep", "type": {"type": "array", "items": {"type": "map", "values": "Item"}}}]},
+        "x.y.Item": {"type": "fixed", "name": "Item", "namespace": "x.y", "size": 5},
+    }
+    out.append((types, "Top", [("Top", "Item", "union", "relative"), ("Top", "x.y.Holder", "map", "qualified"),
+                               ("x.y.Holder", "x.y.Item", "union", "relative"), ("x.y.Holder", "x.y.Item", "union", "relative")]))
+    return out
+
+
+def one_repo(sh, fa, rng, scratch, idx, given=None):
     from fastavro.schema import load_schema, load_schema_ordered, to_parsing_canonical_form
 
-    types, root, edges = gen_repo(rng)
+    types, root, edges = given if given is not None else gen_repo(rng)
     if len(types) < 2:
         return
     d = os.path.join(scratch, "repo-%d" % idx)
@@ -249,6 +280,9 @@ def one_repo(sh, fa, rng, scratch, idx):
             sh.count("type_used_3_times")
         if any("." in js["name"] for js in types.values()):
             sh.count("dotted_name_definitions")
+        shorts = [t.rpartition(".")[2] for t in types]
+        if len(set(shorts)) < len(shorts):
+            sh.count("same_simple_name_in_two_namespaces")
         if any(isinstance(f["type"], list) and sum(1 for b in f["type"] if b not in ("null", "string")) >= 2
                for js in types.values() for f in js.get("fields", [])):
             sh.count("same_type_twice_in_union")
@@ -364,6 +398,10 @@ def run_shard(spec):
         elif st == "exc" or to_parsing_canonical_form(loaded) != RP.pcf(model):
             sh.violation("loaded-schema-differs", "replayed", info)
         return sh.result()
+    if spec["shard"] == 0:
+        for k, given in enumerate(targeted_repos()):
+            sh.run_case(one_repo, sh, fa, rng, scratch, 10**6 + k, given)
+            sh.count("targeted_repositories")
     i = 0
     while i < spec["n"] and not sh.out_of_time():
         i += 1
